@@ -1,4 +1,5 @@
 import Afkak.Monitor.ProducerTrace
+import Afkak.Monitor.C01
 /-!
 # Monitors for C19 — batching thresholds, time limit, cancellation, stop
 -/
@@ -83,6 +84,12 @@ def stopStep (pre : Snap) (t : Track) (s : Step) : Bool :=
        | _ => true)
    | _ => true)
 
+/-- A late cancel only detaches the caller: the batch goes on and, when it has resolved, every OTHER
+    send of it has fired as well (the exactly-once check of C01, on traces that contain a late cancel). -/
+def detachStep (cfg : Cfg) (pre : Snap) (t : Track) (s : Step) : Bool :=
+  !(track pre t s).lateCancel || Afkak.Monitor.C01.resolvedFiredStep cfg pre t s
+
+def detach (cfg : Cfg) (tr : List Step) : Bool := checkTrace cfg (detachStep cfg) tr
 def accounting (cfg : Cfg) (tr : List Step) : Bool := checkTrace cfg accountingStep tr
 def dispatchIff (cfg : Cfg) (tr : List Step) : Bool := checkTrace cfg (dispatchStep cfg) tr
 def cancel (cfg : Cfg) (tr : List Step) : Bool := checkTrace cfg cancelStep tr
